@@ -48,10 +48,13 @@ where
     T: Deserialize<'de>,
     D: Deserializer<'de>,
 {
-    T::deserialize(Value::String(
-        String::deserialize(deserializer)?.to_lowercase(),
-    ))
-    .map_err(serde::de::Error::custom)
+    // Deserialize as an optional string so that an explicit JSON `null` is passed on to `T`
+    // unchanged (e.g., it becomes `None` when `T` is an `Option`) instead of being rejected here.
+    let value = match Option::<String>::deserialize(deserializer)? {
+        Some(s) => Value::String(s.to_lowercase()),
+        None => Value::Null,
+    };
+    T::deserialize(value).map_err(serde::de::Error::custom)
 }
 
 /// Serde space-delimited string deserializer for a `Vec<String>`.
